@@ -1,4 +1,6 @@
 import IceTie.AgentSwitch
+import IceTie.AgentSuccess
+import IceTie.AgentSelector
 import IceProofs.AgentC03Own
 /-!
 # C03 — only validated and nominated pairs are ever selected
@@ -469,5 +471,99 @@ example : IceGen.controlledSelector_shouldSwitchSelectedPair true false false fa
     IceGen.controlledSelector_shouldSwitchSelectedPair true false false false true 7 7 = false ∧
     -- once a nomination value has been accepted a value-less nomination no longer moves the selection (fix of F29)
     IceGen.controlledSelector_shouldSwitchSelectedPair true false false true true 5 7 = false := by decide
+
+/-- `controllingSelector.isNominatable` (selection.go, regenerated on every run) is the model's `Agent.nominatable`: for
+every candidate type code and all non-negative durations, the candidate is nominatable iff the selector has run for at
+least the wait of its type (an unknown type never is) -/
+theorem C03_code_isNominatable (a : Agent) (now : Nat) (c : Cand) (ty : UInt8) (elapsed hw sw pw rw : Int64)
+    (h0 : 0 ≤ elapsed.toInt) (h1 : 0 ≤ hw.toInt) (h2 : 0 ≤ sw.toInt) (h3 : 0 ≤ pw.toInt) (h4 : 0 ≤ rw.toInt)
+    (ht : ty.toNat = c.ty) (he : IceTie.AgentSuccess.dur elapsed = now - a.selStart)
+    (e1 : IceTie.AgentSuccess.dur hw = a.cfg.hostWait) (e2 : IceTie.AgentSuccess.dur sw = a.cfg.srflxWait)
+    (e3 : IceTie.AgentSuccess.dur pw = a.cfg.prflxWait) (e4 : IceTie.AgentSuccess.dur rw = a.cfg.relayWait) :
+    IceGen.controllingSelector_isNominatable ty elapsed hw sw pw rw = a.nominatable now c :=
+  IceTie.AgentSuccess.isNominatable_model a now c ty elapsed hw sw pw rw h0 h1 h2 h3 h4 ht he e1 e2 e3 e4
+
+/-- non-vacuity: the default waits (host 0, srflx 500 ms, prflx 1 s, relay 2 s) at 600 ms -/
+example : IceGen.controllingSelector_isNominatable 1 600000000 0 500000000 1000000000 2000000000 = true ∧
+    IceGen.controllingSelector_isNominatable 2 600000000 0 500000000 1000000000 2000000000 = true ∧
+    IceGen.controllingSelector_isNominatable 3 600000000 0 500000000 1000000000 2000000000 = false ∧
+    IceGen.controllingSelector_isNominatable 4 600000000 0 500000000 1000000000 2000000000 = false ∧
+    IceGen.controllingSelector_isNominatable 0 600000000 0 0 0 0 = false := by decide
+example : (0 : Int64).toInt ≥ 0 ∧ IceTie.AgentSuccess.dur 500000000 = ({} : Config).srflxWait := by decide
+
+/-- `ContactCandidates` of both selectors and `controllingSelector.HandleBindingRequest` (selection.go, regenerated in effect mode
+on every run), for ALL arguments: what a tick does — validate + keepalive on a selected pair, re-nominate the nominated pair,
+nominate the best valid pair only when BOTH its candidates are nominatable (marked and remembered first), else ping — and when an
+inbound request makes the controlling agent nominate: only on a listed, succeeded pair, with nothing nominated and nothing
+selected, that is the best available pair with nominatable candidates -/
+theorem C03_code_tick_and_request
+    (hasSelected selectedValid autoRenom enableRenom hasNominated hasBestValid localOk remoteOk hasPair hasBest bestIsPair : Bool)
+    (pairState : Int64) :
+    IceGen.controllingSelector_ContactCandidates hasSelected selectedValid autoRenom enableRenom hasNominated hasBestValid
+        localOk remoteOk
+      = (if hasSelected then
+          IceTie.AgentSelector.c "validateSelectedPair" :: (if selectedValid then
+            [IceTie.AgentSelector.c "checkKeepalive"]
+              ++ (if autoRenom && enableRenom then [IceTie.AgentSelector.c "keepAliveCandidatesForRenomination"] else [])
+              ++ [IceTie.AgentSelector.c "checkForAutomaticRenomination"] else [])
+        else if hasNominated then [IceTie.AgentSelector.c "nominatePair"]
+        else if hasBestValid && localOk && remoteOk then
+          [IceModel.Eff.set "p.nominated" (IceModel.Val.b true), IceModel.Eff.set "s.nominatedPair" (IceModel.Val.s "bestValid"),
+           IceTie.AgentSelector.c "nominatePair"]
+        else [IceTie.AgentSelector.c "pingAllCandidates"]) ∧
+    IceGen.controlledSelector_ContactCandidates hasSelected selectedValid
+      = (if hasSelected then IceTie.AgentSelector.c "validateSelectedPair" ::
+            (if selectedValid then [IceTie.AgentSelector.c "checkKeepalive"] else [])
+         else [IceTie.AgentSelector.c "pingAllCandidates"]) ∧
+    IceGen.controllingSelector_HandleBindingRequest hasPair pairState hasNominated hasSelected hasBest bestIsPair localOk remoteOk
+      = IceTie.AgentSelector.c "sendBindingSuccess" ::
+        (if !hasPair then [IceTie.AgentSelector.c "addPair", IceTie.AgentSelector.c "updateRequestReceived"]
+         else IceTie.AgentSelector.c "updateRequestReceived" ::
+           ((if pairState == 4 && !hasNominated && !hasSelected && hasBest && bestIsPair && localOk && remoteOk
+             then [IceModel.Eff.set "s.nominatedPair" (IceModel.Val.s "pair"), IceTie.AgentSelector.c "nominatePair"] else [])
+            ++ [IceTie.AgentSelector.c "customHandler"])) :=
+  ⟨IceTie.AgentSelector.ctlContactCandidates_tie hasSelected selectedValid autoRenom enableRenom hasNominated hasBestValid localOk remoteOk,
+   IceTie.AgentSelector.cldContactCandidates_tie hasSelected selectedValid,
+   IceTie.AgentSelector.ctlHandleBindingRequest_tie hasPair pairState hasNominated hasSelected hasBest bestIsPair localOk remoteOk⟩
+
+/-- … and the model's tick is the same decision tree (every state; definitional unfolding of `Agent.contactCandidates`) -/
+theorem C03_model_tick (a : Agent) (now : Nat) :
+    (a.controlling = true → a.contactCandidates now =
+      if a.selected.isSome then
+        (if (a.validateSelected now).2.2 then
+          (((a.validateSelected now).1.keepalive now).1, (a.validateSelected now).2.1 ++ ((a.validateSelected now).1.keepalive now).2)
+         else ((a.validateSelected now).1, (a.validateSelected now).2.1))
+      else match a.nominatedPair.bind a.pairById with
+        | some p => a.nominate now p
+        | none =>
+          match a.nominatedPair with
+          | some _ => (a, [])
+          | none =>
+            match a.bestValid with
+            | some p =>
+              match a.localOf p.l, a.remoteOf p.r with
+              | some l, some r =>
+                if a.nominatable now l && a.nominatable now r then
+                  ({ (a.modPair p.id fun p => { p with nominated := true }) with nominatedPair := some p.id }).nominate now p
+                else a.pingAll now
+              | _, _ => a.pingAll now
+            | none => a.pingAll now) ∧
+    (a.controlling = false → a.cfg.lite = false → a.contactCandidates now =
+      if a.selected.isSome then
+        (if (a.validateSelected now).2.2 then
+          (((a.validateSelected now).1.keepalive now).1, (a.validateSelected now).2.1 ++ ((a.validateSelected now).1.keepalive now).2)
+         else ((a.validateSelected now).1, (a.validateSelected now).2.1))
+      else a.pingAll now) :=
+  ⟨IceTie.AgentSelector.contactCandidates_controlling a now, IceTie.AgentSelector.contactCandidates_controlled a now⟩
+
+example : IceGen.controllingSelector_ContactCandidates false false false false false true true false
+      = [IceModel.Eff.call "pingAllCandidates" []] ∧
+    IceGen.controllingSelector_ContactCandidates false false false false false true true true
+      = [IceModel.Eff.set "p.nominated" (IceModel.Val.b true), IceModel.Eff.set "s.nominatedPair" (IceModel.Val.s "bestValid"),
+         IceModel.Eff.call "nominatePair" []] ∧
+    IceGen.controllingSelector_HandleBindingRequest true 4 false false true true true true
+      = [IceModel.Eff.call "sendBindingSuccess" [], IceModel.Eff.call "updateRequestReceived" [],
+         IceModel.Eff.set "s.nominatedPair" (IceModel.Val.s "pair"), IceModel.Eff.call "nominatePair" [],
+         IceModel.Eff.call "customHandler" []] := by decide
 
 end IceProps.C03
